@@ -132,6 +132,7 @@ def echo(src):
 
 INST = {"k": "inst"}
 FSTRS = {"k": "fstrs"}       # string[]: [null, path of a file, "not a path", path of a file]
+FILES3D = {"k": "files3d"}   # a three-dimensional array of files with a null element and an empty row
 FILES2D = {"k": "files2d"}   # a two-dimensional array of files: [[f, f], [f], []]
 
 
